@@ -39,12 +39,22 @@ type twStep struct {
 	K int    `json:"k"`
 }
 
+// twMarkerFrames: every 5th frame of at least 16 bytes begins with the five bytes "clear" (thermal-recorder's in-band
+// camera-restart marker means nothing to thermal-writer: frame contents are arbitrary); such a frame carries its id
+// at offset 8.
+var twMarkerFrames = true
+
+func twIsMarkerFrame(id, size int) bool { return twMarkerFrames && size >= 16 && id%5 == 0 }
+
 func twFrame(id, size int) []byte {
 	b := make([]byte, size)
 	for j := range b {
 		b[j] = byte((id*31 + j*7 + id>>8) % 251)
 	}
-	if size >= 4 {
+	if twIsMarkerFrame(id, size) {
+		copy(b, "clear")
+		binary.LittleEndian.PutUint32(b[8:], uint32(id))
+	} else if size >= 4 {
 		binary.LittleEndian.PutUint32(b, uint32(id))
 	}
 	return b
@@ -192,7 +202,9 @@ func twParse(path string, frameSize int, want map[string]string) twFile {
 		data := b[pos : pos+sz]
 		pos += sz
 		id := 0
-		if sz >= 4 {
+		if sz >= 16 && string(data[:5]) == "clear" {
+			id = int(binary.LittleEndian.Uint32(data[8:]))
+		} else if sz >= 4 {
 			id = int(binary.LittleEndian.Uint32(data))
 		}
 		out.Ids = append(out.Ids, id)
